@@ -338,3 +338,8 @@ mod tests {
 
     }
 }
+
+// Verification hook (add-only): compiled only under `cargo kani` or `--cfg heathcliff_verif`.
+#[cfg(any(kani, heathcliff_verif))]
+#[path = "/verif/incrate/util_number_theory_v.rs"]
+pub(crate) mod verif_v;
